@@ -98,7 +98,7 @@ class Run(object):
         self.add_results(explore_all(jobs, procs), batch_nodes, tlc_workers)
 
     def add_mc(self, defs, own, max_pause=0, max_cancel=0, max_steps=14, known=None, replay=True,
-               lang="yaql", timeout=900, bound_check=False):
+               lang="yaql", timeout=900, bound_check=False, max_rerun=0):
         """TLC model-checks Spec B + Props on `defs`; the behaviours it generated (leaf schedules,
         and the counterexample if an invariant failed) are replayed into the real conductor and
         validated like explored trees; digest mismatches are divergences."""
@@ -107,10 +107,11 @@ class Run(object):
             known = sorted({k["signature"] for k in load_known_findings() if k.get("status", "open") == "open"})
         defs = [dict(d, name="m%d_%s" % (i, d["name"])) for i, d in enumerate(defs)]
         res = mc.run_mc(defs, self.tmp, own, max_pause, max_cancel, max_steps, known, emit=replay,
-                        timeout=timeout, tag="mc%d" % len(self.extra.get("mc_runs", [])), bound_check=bound_check)
+                        timeout=timeout, tag="mc%d" % len(self.extra.get("mc_runs", [])), bound_check=bound_check,
+                        max_rerun=max_rerun)
         info = {"defs": len(defs), "states": res["distinct"], "transitions": res["states"],
                 "wall_s": round(res["wall"], 1), "max_pause": max_pause, "max_cancel": max_cancel,
-                "max_steps": max_steps, "spec_violation": res["violated"], "leaves": len(res["leaves"])}
+                "max_steps": max_steps, "max_rerun": max_rerun, "spec_violation": res["violated"], "leaves": len(res["leaves"])}
         if bound_check:
             info["bound_hit"] = res["bound_hit"]
             if res["bound_hit"]:
